@@ -9,6 +9,7 @@ import (
 	"os/exec"
 	"reflect"
 	"runtime/debug"
+	"runtime/metrics"
 	"strconv"
 	"strings"
 	"syscall"
@@ -111,6 +112,17 @@ func DecodeInProc(b []byte, t reflect.Type) Outcome {
 		return Outcome{Res: "fail " + g}
 	}
 	return o
+}
+
+var allocSample = []metrics.Sample{{Name: "/gc/heap/allocs:bytes"}}
+
+// AllocBytes is the cumulative number of heap bytes allocated by this process (no stop-the-world).
+func AllocBytes() uint64 {
+	metrics.Read(allocSample)
+	if allocSample[0].Value.Kind() == metrics.KindUint64 {
+		return allocSample[0].Value.Uint64()
+	}
+	return 0
 }
 
 // ---------------------------------------------------------------- child process
@@ -233,7 +245,7 @@ wait:
 			cmd.Process.Signal(syscall.SIGQUIT)
 			select {
 			case <-done:
-			case <-time.After(3 * time.Second):
+			case <-time.After(15 * time.Second):
 				cmd.Process.Kill()
 				<-done
 			}
@@ -264,7 +276,7 @@ wait:
 
 // resident set limit of a child: a decoder that keeps allocating is stopped here (the address space limit only
 // catches single huge requests; the Go runtime itself needs a few GiB of address space)
-const rssLimit = 500 << 20
+const rssLimit = 200 << 20
 
 func rssBytes(pid int) uint64 {
 	b, err := os.ReadFile(fmt.Sprintf("/proc/%d/statm", pid))
